@@ -79,6 +79,24 @@ def run(ctx):
                 vals = [want["directivity"][e, p], want["transrefl"][e, p], want["beamspread"][e, p], want["attenuation"][e, p], rwant["transrefl"][e, p], rwant["beamspread"][e, p], sqrt_lam]
                 lines.append(f"assemble {''.join('1' if b else '0' for b in sw)} {cl(vals)}")
                 meta.append(("assemble", (complex(w_tx[e, p]), complex(w_rx[e, p])), cj))
+        # ---- the wrapper used by the models: every switch reaches the factor it names (all 16 subsets, compared with the
+        #      per-path functions called directly with the same switches)
+        for sw in itertools.product([True, False], repeat=4):
+            kw = dict(use_directivity=sw[0], use_transrefl=sw[1], use_beamspread=sw[2], use_attenuation=sw[3])
+            try:
+                rw_sw = bim.ray_weights_for_views(views, freq, probe_element_width=width, save_debug=bool(sw[0] ^ sw[3]), **kw)
+            except Exception as e:
+                ctx.violate(f"ray_weights_for_views raised {type(e).__name__}: {str(e)[:80]} for switches {kw}", {"op": "ray_weights_for_views", "switches": list(sw)}, {"kind": "wrapper"})
+                continue
+            ctx.count("wrapper_switches")
+            for vname_, view_ in list(views.items())[:6]:
+                for side, pth, dct, fn in (("tx", view_.tx_path, rw_sw.tx_ray_weights_dict, bim.tx_ray_weights), ("rx", view_.rx_path, rw_sw.rx_ray_weights_dict, bim.rx_ray_weights)):
+                    direct, _ = fn(pth, ray.RayGeometry.from_path(pth), freq, width, **kw)
+                    if not np.array_equal(np.asarray(dct[pth]), np.asarray(direct)):
+                        ctx.violate(f"ray_weights_for_views({kw}): the {side} weights of path {pth.name} are not those of {side}_ray_weights with the same switches "
+                                    "(a switch does not reach the factor it names)", {"op": "ray_weights_for_views", "switches": list(sw), "path": pth.name, "side": side},
+                                    {"kind": "wrapper", "side": side})
+                        break
         # ---- amplitudes
         rw = bim.ray_weights_for_views(views, freq, probe_element_width=width)
         names = list(views)
